@@ -168,7 +168,8 @@ adev.jax = StubNS(
     grad=grad_rec,
     lax=StubNS(cond=lax_stub.cond, cond_p=J.cond_p),
     nn=StubNS(softmax=softmax),
-    _src=StubNS(core=StubNS(get_aval=AD.get_aval, ShapedArray=AD.ShapedArray)),
+    _src=StubNS(core=StubNS(get_aval=AD.get_aval, ShapedArray=AD.ShapedArray, Tracer=J.Tracer)),
+    core=StubNS(Tracer=J.Tracer),
     dtypes=StubNS(float0=AD.FLOAT0),
     custom_jvp=lambda f: f,
 )
@@ -284,14 +285,29 @@ class DualHelpers(_NoReplay):
         yield "tree_leaves_are_the_dual_leaves", len(lv) == 3 and all(isinstance(d, Dual) for d in lv)
 
 
+class CplxSym(Sym):
+    """a value of a complex dtype (its arithmetic is not modelled; only its dtype and identity matter)"""
+
+    __slots__ = ()
+    dtype = "complex"
+
+
 @contract("genjax.adev:_canonicalize_tangent_for_primitive_jvp", ["C15"])
 class Canonicalize(_NoReplay):
-    cases = ["symbolic_zero", "float0", "ordinary", "non_array"]
+    """only float0 tangents (those of integer / boolean primals) are turned into symbolic zeros; every other
+    tangent - of a real OR complex primal - is passed through"""
+
+    cases = ["symbolic_zero", "float0", "ordinary_real", "ordinary_complex", "non_array"]
 
     def call(self, case):
         reset()
-        self.p = Sym(fresh("k", z3.IntSort()))
-        self.t = {"symbolic_zero": AD.Zero(self.p), "float0": AD.Float0(()), "ordinary": real("t"), "non_array": object()}[case]
+        if case == "ordinary_real":
+            self.p, self.t = real("x"), real("t")
+        elif case == "ordinary_complex":
+            self.p, self.t = CplxSym(fresh("z", V)), CplxSym(fresh("dz", V))
+        else:
+            self.p = Sym(fresh("k", z3.IntSort()))
+            self.t = {"symbolic_zero": AD.Zero(self.p), "float0": AD.Float0(()), "non_array": object()}[case]
         return self.real(self.fn, self.p, self.t)
 
     def ensures(self, case, path):
@@ -493,10 +509,12 @@ class InterpPlainSampleSite(_NoReplay):
 
 @contract("genjax.adev:ADEV.eval_jaxpr_adev", ["C15", "C11"])
 class InterpCond(_NoReplay):
-    """cond: lax.cond on the PRIMAL predicate index; each branch is transformed and continued by the rest of the
-    program; JAX stores cond branches as (false, true) and lax.cond takes (true_fn, false_fn): order compensated"""
+    """cond: the result is the ADEV transform of the branch the PRIMAL predicate index selects (JAX stores cond
+    branches as (false, true)), applied to the dual operands and continued by the rest of the program - whether the
+    index is concrete (eager call) or traced (jit / seed / vmap).  Where the implementation goes through lax.cond,
+    the predicate, branch order (lax.cond takes (true_fn, false_fn)) and operands are checked as well"""
 
-    cases = ["default"]
+    cases = ["eager_index", "traced_index"]
 
     def call(self, case):
         reset()
@@ -505,20 +523,30 @@ class InterpCond(_NoReplay):
 
         def cond_rec(pred, tf, ff, *ops):
             outer.conds.append((pred, tf, ff, ops))
-            return "cond-result"
+            return lax_stub.cond(pred, tf, ff, *ops)
 
         adev.jax.lax.cond = cond_rec
         self.fm = []
         self._orig_fm = adev.ADEV.forward_mode
+        self.BR = [z3.Function("BranchF", V, z3.RealSort()), z3.Function("BranchT", V, z3.RealSort())]
 
         def fake_fm(f, kont=lambda v: v):
             outer.fm.append((f, kont))
-            return ("transformed", getattr(f, "__vt_jaxpr__", None))
+            which = 0 if getattr(f, "__vt_jaxpr__", None) is outer.bF else 1
+
+            def transformed(*ops):
+                return Sym(outer.BR[which](enc(tuple((o.primal, o.tangent) if isinstance(o, Dual) else o for o in ops))))
+
+            transformed.__vt_branch__ = which
+            return transformed
 
         adev.ADEV.forward_mode = staticmethod(fake_fm)
         self.bF, self.bT = J.ClosedJaxpr(J.Jaxpr([], [], [], []), []), J.ClosedJaxpr(J.Jaxpr([], [], [], []), [])
         i, x, o = J.Var("i"), J.Var("x"), J.Var("o")
-        self.vi, self.vx, self.dx = Sym(fresh("idx", z3.IntSort())), real("x"), real("dx")
+        iv = fresh("idx", z3.IntSort())
+        engine().assume(z3.And(iv >= 0, iv <= 1))
+        self.vi = (J.TracerSym(iv) if case == "traced_index" else Sym(iv))
+        self.vx, self.dx = real("x"), real("dx")
         jp = J.Jaxpr([], [i, x], [J.Eqn(J.cond_p, [i, x], [o], {"branches": (self.bF, self.bT)})], [o])
         try:
             return self.real(adev.ADEV.eval_jaxpr_adev, jp, [], [Dual(self.vi, AD.Float0(())), Dual(self.vx, self.dx)])
@@ -530,14 +558,17 @@ class InterpCond(_NoReplay):
         yield "does_not_raise", path.outcome == "return"
         if path.outcome != "return":
             return
-        yield "one_cond", len(self.conds) == 1 and path.value == "cond-result"
-        if len(self.conds) != 1:
-            return
-        pred, tf, ff, ops = self.conds[0]
-        yield "predicate_is_the_primal_index", pred is self.vi
-        yield "true_branch_is_transformed_branches[1]_false_is_branches[0]", tf == ("transformed", self.bT) and ff == ("transformed", self.bF)
-        yield "operands_are_the_dual_operands", len(ops) == 1 and isinstance(ops[0], Dual) and ops[0].primal is self.vx and ops[0].tangent is self.dx
-        yield "both_branches_transformed_with_the_rest_as_continuation", len(self.fm) == 2 and all(callable(k) for _, k in self.fm)
+        ops = enc(((self.vx, self.dx),))
+        want = z3.If(self.vi.e != 0, self.BR[1](ops), self.BR[0](ops))
+        yield "result_is_the_transformed_selected_branch_on_the_dual_operands", isinstance(path.value, Sym) and same(path.value, Sym(want))
+        yield "both_branches_transformed_with_the_rest_as_continuation", all(callable(k) for _, k in self.fm) and {id(getattr(f, "__vt_jaxpr__", None)) for f, _ in self.fm} >= ({id(self.bF), id(self.bT)} if case == "traced_index" else set())
+        if case == "traced_index":
+            yield "traced_index_goes_through_one_lax_cond", len(self.conds) == 1
+        if len(self.conds) == 1:
+            pred, tf, ff, o = self.conds[0]
+            yield "predicate_is_the_primal_index", pred is self.vi
+            yield "true_branch_is_transformed_branches[1]_false_is_branches[0]", getattr(tf, "__vt_branch__", None) == 1 and getattr(ff, "__vt_branch__", None) == 0
+            yield "operands_are_the_dual_operands", len(o) == 1 and isinstance(o[0], Dual) and o[0].primal is self.vx and o[0].tangent is self.dx
 
 
 @contract("genjax.adev:ADEV.forward_mode", ["C15", "C11"])
